@@ -422,6 +422,10 @@ func c18Usage(c *core.Ctx, dir string) {
 		{[]string{"-dx", "ok.bcl"}, "", 2, "cluster with an unknown letter"},
 		{[]string{"--d", "ok.bcl"}, "", 2, "malformed long flag"},
 		{[]string{"ok.bcl", "ok.bcl"}, "", 2, "two files"},
+		{[]string{"-", "ok.bcl"}, ok, 2, "standard input and a file"},
+		{[]string{"ok.bcl", "-"}, ok, 2, "a file and standard input"},
+		{[]string{"-", "-"}, ok, 2, "standard input twice"},
+		{[]string{"-r", "-", "-t", "noext"}, ok, 2, "standard input and a file between flags"},
 		{[]string{"-d", "ok.bcl", "-t", "noext"}, "", 2, "two files between flags"},
 		{[]string{"--bdump"}, ok, 2, "--bdump without a derivable name (stdin)"},
 		{[]string{"--bdump", "-"}, ok, 2, "--bdump with '-'"},
@@ -463,6 +467,25 @@ func c18Usage(c *core.Ctx, dir string) {
 		c.Eval(2)
 		if pre.exit != 0 || e1 != nil || ld.exit != 0 || ld.stdout != pre.stdout {
 			c.Violation("cli-bdump-file-name", fmt.Sprintf("bcl --bdump=env=prod.bcb ok.bcl: exit %d, file written: %v; --bload env=prod.bcb: exit %d stderr %q", pre.exit, e1 == nil, ld.exit, ld.stderr), nil)
+		} else {
+			c.Count("usage_and_io_error_cases", 1)
+		}
+	}
+	// dump file names of unusual shape: starting with a dash, a dot, containing blanks; load them back, re-dump them
+	for _, bn := range []string{"-out.bcb", "--x.bcb", ".hidden.bcb", "a b.bcb", "-", "x.bcl", "d.bcb.bcb"} {
+		pre := runCLI(dir, "", "--bdump="+bn, "ok.bcl")
+		c.Eval(1)
+		if bn == "-" {
+			continue // the documentation does not say what '-' means as a dump file
+		}
+		_, e1 := os.Stat(filepath.Join(dir, bn))
+		ld := runCLI(dir, "", "--bload="+bn)
+		re := runCLI(dir, "", "--bload="+bn, "--bdump="+bn+".again")
+		x, _ := os.ReadFile(filepath.Join(dir, bn))
+		y, _ := os.ReadFile(filepath.Join(dir, bn+".again"))
+		c.Eval(2)
+		if pre.exit != 0 || pre.stdout != "1\n" || e1 != nil || ld.exit != 0 || ld.stdout != pre.stdout || re.exit != 0 || len(x) == 0 || !bytes.Equal(x, y) {
+			c.Violation("cli-bdump-file-name", fmt.Sprintf("bcl --bdump=%s ok.bcl: exit %d stdout %q stderr %q, file written: %v; --bload=%s: exit %d stderr %q; re-dump: exit %d, same bytes: %v", bn, pre.exit, pre.stdout, core.Trunc(pre.stderr, 200), e1 == nil, bn, ld.exit, core.Trunc(ld.stderr, 200), re.exit, bytes.Equal(x, y)), nil)
 		} else {
 			c.Count("usage_and_io_error_cases", 1)
 		}
@@ -559,7 +582,7 @@ func init() {
 		Level: "exploration",
 		Rule: "process monitor on the built cmd/bcl (rebuilt from /repo by run.sh): stdout, stderr and exit status of each child process are compared with what the library gives in-process for the same file, input name and options (ParseFile(disasm, stats) + Execute(trace, stats) + the documented result lines; exit 0 / 1), across equivalent argument vectors: every subset of -d -t -r -s spelled short, long, mixed, clustered in any letter order, split clusters, repeated letters, with the file before, between, after the flags and after '--', given as '-' or omitted with standard input. " +
 			"23 usage / I/O error cases must exit with the documented status 2 / 1 and a message on stderr. '--bdump' (derived and explicit name) must not change the outcome and '--bload F', '--bload=F' and '--bload < F' must reproduce output and exit status of the direct run. Every child gets an explicit stdin and a 60 s watchdog (firing = inconclusive). " +
-			"distinct = hash(program, flags); non-trivial = all vectors of the case ran to exit and were compared Also: standard input through a pipe in two pieces with a pause; file stems ending in b/c/l/.; --bdump=/dev/full; the same flag given twice in both orders; a dump name containing '='; re-dump onto the loaded file; a dump over an existing longer dump. Also: the file given by a name that is not a regular file (/dev/stdin, a named pipe that a writer feeds); the bare command and '-' on every kind of standard input (/dev/null, an empty regular file, a program file).",
+			"distinct = hash(program, flags); non-trivial = all vectors of the case ran to exit and were compared Also: standard input through a pipe in two pieces with a pause; file stems ending in b/c/l/.; --bdump=/dev/full; the same flag given twice in both orders; a dump name containing '='; re-dump onto the loaded file; a dump over an existing longer dump. Also: the file given by a name that is not a regular file (/dev/stdin, a named pipe that a writer feeds); the bare command and '-' on every kind of standard input; '-' together with a file name (usage error); dump file names starting with a dash or a dot or containing blanks, loaded back and re-dumped (/dev/null, an empty regular file, a program file).",
 		Assumptions:   []string{"the library's in-process result is the reference (C01-C04, C19 check the library itself)"},
 		MinNontrivial: 60,
 		Run: func(c *core.Ctx) {
